@@ -22,7 +22,10 @@ def run(ctx):
                 "one Tub that interleave Tub peers with such raw peers.  getReference histories = requests for different Tubs / names "
                 "made before startService (queued), startService, requests after it (all queues of length <= 2, all of length 3 over "
                 "five targets, random longer ones); non-trivial = at least two queued requests naming different objects; every "
-                "result is judged by the per-reference oracle (connection key, leaf certificate, reference URL, object reached)")
+                "result is judged by the per-reference oracle (connection key, leaf certificate, reference URL, object reached).  Crossed "
+                "connections = four Tubs: A has lookups pending to 2 or 3 Tubs (every order) on held links, 1 or 2 of them connect to A, "
+                "links finish in several orders and in random delivery-by-delivery interleavings; non-trivial = an inbound connection "
+                "was attached at A while >= 2 lookups were issued; table and per-reference oracles judged after every delivery")
     ctx.assumptions = [
         "TLS itself is replaced: startTLS is a no-op and the transport's handle is a fake OpenSSL connection object "
         "(get_peer_certificate / get_peer_cert_chain / get_verified_chain) describing what the peer presents: a leaf certificate plus "
@@ -55,8 +58,10 @@ def run(ctx):
         hist = histories(ctx, impl)
         scripts = keeps_sending(ctx, impl)
         grs = getref_histories(ctx, impl)
+        crs = crossed(ctx, impl)
     if model_ok:
         correspond_getrefs(ctx, grs)
+        correspond_crossed(ctx, crs)
         correspond_urls(ctx, urls)
         correspond_histories(ctx, hist)
         correspond_scripts(ctx, scripts)
@@ -742,3 +747,140 @@ def correspond_getrefs(ctx, grs):
                              replay=dict(history=g, model=repr(model)), has_input=False)
     ctx.extra["correspondence_getref_histories"] = len(rows)
     ctx.extra["correspondence_getref_disagreements"] = nbad
+
+
+# ---------------------------------------------------------------------------------------------- crossed connections, 4 Tubs
+def crossed(ctx, impl):
+    """Tub A has lookups pending to two or three other Tubs, each on a link the harness holds back; some of those Tubs connect
+    to A themselves; the links are then allowed to finish in every order (and, at random, interleaved delivery by delivery).
+    The table oracle (all four Tubs) and the per-reference oracle are judged after every single delivery."""
+    jobs = []
+    if os.path.isdir(CORPUS):
+        for fn in sorted(os.listdir(CORPUS)):
+            if fn.endswith(".json"):
+                for g in json.load(open(os.path.join(CORPUS, fn))).get("crossed", []):
+                    jobs.append((g[0], [tuple(o) for o in g[1]]))
+    others = ["B", "C", "D"]
+    r = ctx.rng
+    for a_pos in ("hi", "lo"):
+        for k in (2, 3):
+            for outs in itertools.permutations(others, k):
+                subsets = [c for m in (1, 2) for c in itertools.combinations(sorted(outs), m)]
+                for ins in subsets:
+                    base = [("out", x) for x in outs] + [("in", x) for x in ins]
+                    out_l = list(range(k))
+                    in_l = list(range(k, k + len(ins)))
+                    orders = [in_l + out_l, in_l[::-1] + out_l[::-1], out_l + in_l, [in_l[0]] + out_l[::-1] + in_l[1:]]
+                    for _ in range(2):
+                        o = out_l + in_l
+                        r.shuffle(o)
+                        orders.append(o)
+                    for o in orders:
+                        jobs.append((a_pos, base + [("run", i) for i in o] + [("runall",)]))
+                    # delivery-by-delivery interleaving
+                    steps = [("step", r.choice(out_l + in_l), r.choice([1, 1, 2, 3])) for _ in range(40)]
+                    jobs.append((a_pos, base + steps + [("runall",)]))
+    for i in range(ctx.n(0, 3000)):
+        k = r.choice([2, 3])
+        outs = r.sample(others, k)
+        ins = r.sample(others, r.choice([1, 2, 3]))
+        base = [("out", x) for x in outs] + [("in", x) for x in ins]
+        r.shuffle(base)
+        nl = len(base)
+        steps = [("step", r.randrange(nl), r.choice([1, 1, 2, 3, 5])) for _ in range(60)]
+        jobs.append((r.choice(["hi", "lo"]), base + steps + [("runall",)]))
+    out = []
+    for (a_pos, ops) in jobs:
+        try:
+            g = impl.crossed_trial(a_pos, ops)
+        except Exception as e:
+            import traceback
+            ctx.fail("oracle/crossed/exception", "an exception escaped during the crossed-connection history %r: %r" % (ops, e),
+                     replay=dict(a_pos=a_pos, ops=ops, tb=traceback.format_exc()))
+            continue
+        crossed_n = sum(1 for e in g["events"] if e[0] == "neg" and e[1] == "Server")
+        ctx.case(["crossed", a_pos, g["ops"]], nontrivial=crossed_n >= 1 and sum(1 for o in ops if o[0] == "out") >= 2)
+        ctx.hist("crossed_inbound_attached_at_A", crossed_n)
+        for oc in g["outcome"]:
+            ctx.hist("crossed_getReference", oc)
+        for p in g["problems"][:2]:
+            ctx.fail("oracle/crossed/%s" % p[0], "%s; history on four Tubs (A looks up 'out' Tubs on held links, 'in' Tubs look A up, links "
+                     "progress as listed): %r" % (p[1], g["ops"]), replay=dict(history=g))
+        out.append(g)
+    if len(out) > 10:
+        ctx.sample(dict(kind="crossed", ops=out[10]["ops"], events=[e[:4] for e in out[10]["events"]], answers=out[10]["answers"]))
+    return out
+
+
+def correspond_crossed(ctx, crs):
+    from harness import c05_impl as impl
+    if not crs:
+        return
+    defs = []
+    allids = {}
+    for a_pos in ("hi", "lo"):
+        arr = impl.arrangement4(a_pos)
+        allids[a_pos] = {k: v[0] for k, v in arr.items()}
+        for k in "ABCD":
+            defs.append("Definition id%s_%s : list Z := %s." % (k, a_pos, zs(arr[k][0])))
+        defs.append("Definition tid_%s : Z -> list Z := fun c => if (c =? 1)%%Z then idA_%s else if (c =? 2)%%Z then idB_%s "
+                    "else if (c =? 3)%%Z then idC_%s else if (c =? 4)%%Z then idD_%s else []." % ((a_pos,) * 5))
+    defs = "\n".join(defs) + """
+Definition code (tid : Z -> list Z) (k : list Z) : Z :=
+  if list_eqb k (tid 1%Z) then 1%Z else if list_eqb k (tid 2%Z) then 2%Z else if list_eqb k (tid 3%Z) then 3%Z
+  else if list_eqb k (tid 4%Z) then 4%Z else 0%Z.
+Definition ccode (c : conn Z) : Z := if conn_loop Z c then (-1)%Z else match conn_cert Z c with Some n => n | None => 0%Z end.
+Definition show (tid : Z -> list Z) (st : tstate Z) :=
+  (map (fun e => (code tid (fst e), ccode (snd e))) (t_tab Z st), map (code tid) (t_conn Z st)).
+Fixpoint trace (tid : Z -> list Z) (st : tstate Z) (evs : list (tevent Z)) :=
+  match evs with [] => [] | e :: r => let st' := tstep Z tid (tid 1%Z) st e in show tid st' :: trace tid st' r end.
+Definition answers (tid : Z -> list Z) (evs : list (tevent Z)) :=
+  map (fun a => (Z.of_nat (fst (fst a)), code tid (snd (fst a)), match snd a with Some c => ccode c | None => (-2)%Z end))
+      (t_ans Z (trun Z tid (tid 1%Z) evs)).
+"""
+    num = dict(A="1%Z", B="2%Z", C="3%Z", D="4%Z")
+
+    def idt(s_, g):
+        rev = {v: k for k, v in g["ids"].items()}
+        return "id%s_%s" % (rev[s_], g["a_pos"]) if s_ in rev else zs(s_)
+
+    def ev(e, g):
+        if e[0] == "lookup":
+            return "TLookup Z %s" % idt(e[1], g)
+        if e[0] == "failed":
+            return "TFailed Z %s" % idt(e[1], g)
+        if e[0] == "detach":
+            return "TDetached Z %s" % idt(e[1], g)
+        _, role, tgt, leaf, claim, key = e
+        p_ = "(Build_presented Z %s [])" % ("None" if leaf is None else "(Some %s)" % num[leaf])
+        return "TNegotiated Z %s %s %s (Some %s) true" % (role, idt(tgt, g) if tgt else "[]", p_, idt(claim, g))
+    nbad = 0
+    for shard in range(0, len(crs), 250):
+        part = crs[shard:shard + 250]
+        body = defs + "Eval vm_compute in [" + ";\n ".join(
+            "(trace tid_%s (t_init Z) %s, answers tid_%s %s)" % (g["a_pos"], coq_list(ev(e, g) for e in g["events"]), g["a_pos"],
+                                                                  coq_list(ev(e, g) for e in g["events"])) for g in part) + "].\n"
+        try:
+            (vals,) = ctx.coq_eval("C05_crossed_%d" % (shard // 250), body, requires=REQ)
+        except common.CoqEvalError as e:
+            ctx.fail("correspondence-broken", "the C05 pending-lookup model could not be evaluated: " + str(e)[-1500:], has_input=False)
+            return
+        for g, (tr, ans) in zip(part, vals):
+            ctx.traces += 1
+            rev = {v: i + 1 for i, v in enumerate([g["ids"][k] for k in "ABCD"])}
+            want = [(sorted((rev.get(k, 0), -1 if loop else rev.get(c, 0)) for (k, c, loop) in tab), [rev.get(k, 0) for k in conn])
+                    for (tab, conn) in g["snaps"]]
+            got = [(sorted((a, b) for (a, b) in tab), list(conn)) for (tab, conn) in tr]
+            m_ans = {n: (x, c) for (n, x, c) in ans}
+            i_ans = {}
+            for n, (x, a) in enumerate(g["answers"]):
+                if a != "pending":
+                    i_ans[n] = (rev.get(x, 0), -1 if a == "loopback" else (-2 if a == "failed" else rev.get(a, 0)))
+            if want != got or m_ans != i_ans:
+                nbad += 1
+                if nbad <= 3:
+                    ctx.fail("correspondence/crossed", "Tub A (brokers, tubConnectors after every event; lookups answered) and the model differ on "
+                             "history %r: implementation %r answers %r, model %r answers %r" % (g["ops"], want, i_ans, got, m_ans),
+                             replay=dict(history=g, model=[got, repr(m_ans)], impl=[want, repr(i_ans)]), has_input=False)
+    ctx.extra["correspondence_crossed_histories"] = len(crs)
+    ctx.extra["correspondence_crossed_disagreements"] = nbad
